@@ -43,9 +43,17 @@ def gen_case(rng, tier):
              "prev": [f"p{i}" for i in range(npairs)],
              "curr": [f"c{i}" for i in range(npairs)],
              "batch": [f"b{i}" for i in range(nbatch)]}
-    if rng.random() < 0.3:   # adversarial-looking names
+    r = rng.random()
+    if r < 0.25:   # conventional names
         names["prev"] = [f"x{i}_prev" for i in range(npairs)]
         names["curr"] = [f"x{i}" for i in range(npairs)]
+    elif r < 0.6:  # names whose sort order differs between prev and curr (pairing must follow the dict, not sorting)
+        pool_p = ["x_prev", "prev_y", "zp", "a_old", "m0"]
+        pool_c = ["x", "y", "a", "zz", "b_new"]
+        rng.shuffle(pool_p)
+        rng.shuffle(pool_c)
+        names["prev"] = pool_p[:npairs]
+        names["curr"] = pool_c[:npairs]
     inputs = []
     if time_dep:
         inputs.append(("time", T))
